@@ -1,13 +1,40 @@
+"""./check --setup : build / warm everything from files on disk, offline.
+  - warm Verus (first run loads vstd)
+  - compile the Kani harness crates once (searchlite-core, searchlite-ffi) so later checks only re-verify
+  - build the native replay driver (used only when a violation is being replayed)"""
+import concurrent.futures
 import os
 import subprocess
-from . import units
+
+from . import kani_run, units, witness
+
 
 def run():
     os.makedirs(units.GEN, exist_ok=True)
-    # first Verus run is slow (loads vstd): warm it
     p = os.path.join(units.GEN, 'warm.rs')
     with open(p, 'w') as f:
         f.write('use vstd::prelude::*;\nverus! { proof fn t() ensures 1 + 1 == 2int {} }\nfn main() {}\n')
     r = subprocess.run(['verus', 'warm.rs'], cwd=units.GEN, stdout=subprocess.PIPE, stderr=subprocess.STDOUT, text=True)
-    print(r.stdout[-300:])
-    return 0 if r.returncode == 0 else 1
+    print('verus warm-up:', r.stdout.strip()[-120:])
+    rc = 0 if r.returncode == 0 else 1
+    kani_run.prepare_gen()
+    ok, cause, _, _ = kani_run.gen_ffi_slice()
+    if not ok:
+        print('ffi slice extraction:', cause)
+
+    def kani(crate, prefix):
+        out = kani_run.run_cargo_kani(crate, [prefix], 'quick', timeout=3000)
+        tail = [l[:160] for l in out['out'].split('\n') if 'Complete' in l or l.startswith('error')][-3:]
+        return crate, out['rc'], tail
+
+    with concurrent.futures.ThreadPoolExecutor(max_workers=3) as ex:
+        futs = [ex.submit(kani, 'searchlite-core', 'k9_selector_from_order'), ex.submit(kani, 'searchlite-ffi', 'k5_guard'), ex.submit(witness.build_driver)]
+        for f in futs:
+            r = f.result()
+            if isinstance(r, tuple):
+                print('kani warm-up %s: rc=%s %s' % r)
+                if r[1] != 0:
+                    rc = 1
+            else:
+                print('native replay driver build:', 'ok' if r else 'FAILED ' + witness._built['log'][-400:])
+    return rc
